@@ -128,11 +128,13 @@ pub struct WDim {
 pub struct WStruct {
     pub dims: Vec<WDim>,
     pub count_span: Span,
+    pub version: u64,
+    pub next_id: Option<u64>,
 }
 
 pub fn read_structure(rd: &mut Rd) -> R<WStruct> {
     let version = rd.leb()?;
-    if version != 0 {
+    if version > 1 {
         return Err(format!("structure version {version}"));
     }
     let s = rd.pos;
@@ -180,7 +182,9 @@ pub fn read_structure(rd: &mut Rd) -> R<WStruct> {
             name_len_span,
         });
     }
-    Ok(WStruct { dims, count_span })
+    // V2 structures end with the attribute-id counter
+    let next_id = if version == 1 { Some(rd.leb()?) } else { None };
+    Ok(WStruct { dims, count_span, version, next_id })
 }
 
 pub fn parse_structure(b: &[u8]) -> R<WStruct> {
